@@ -83,14 +83,19 @@ Definition E_BAD_EVENT := 17.      (* not an event of the system *)
 
 (* the facts, read from the node: the momentum store as of the acknowledged momentum, the account store = this
    account's blocks on chain + pool.  Contracts never set the received marker (vm.generateEmbeddedReceive only pops). *)
-Definition check_blk (enf : bool) (n : node) (b : blk) : Z :=
+(* the regime of the receiver rule (verifier.ReceiverMismatchEnforcementHeight = E): fromHash() compares the height of
+   the node's frontier momentum with E; the genesis momentum has height 1, so that height is the number of momentums.
+   Rollbacks can take a node back below E. *)
+Definition enforced (E : Z) (n : node) : bool := E <=? Z.of_nat (length (chain n)).
+
+Definition check_blk (E : Z) (n : node) (b : blk) : Z :=
   if (b_ma b <? 1) || (Z.of_nat (length (chain n)) <? b_ma b) then E_MA_MISSING else
   let view := firstn (Z.to_nat (b_ma b)) (chain n) in
   match b_kind b with
   | BSend _ => if is_emb (b_addr b) then E_TYPE else 0
   | BRecv h =>
     let mine := recvs_of (b_addr b) (blocks_of n) in
-    recv_check enf (b_addr b) h
+    recv_check (enforced E n) (b_addr b) h
       (match find_csend h (conf_sends view) with Some (_, to) => Some to | None => None end)
       (if is_emb (b_addr b) then false else mem_hash h mine)
       (nth_error (inbox_at (b_addr b) view) (length mine))
@@ -139,11 +144,11 @@ Inductive event :=
 | ERollback                                     (* reorg: the frontier momentum is removed; DeleteMomentum drops the pool *)
 | ERestart.                                     (* the pool lives in memory only *)
 
-Definition step_node (enf : bool) (n : node) (e : event) : node * Z :=
+Definition step_node (E : Z) (n : node) (e : event) : node * Z :=
   match e with
   | EBlock keep commit b =>
     let n1 := mkNode (chain n) (keep_first (Z.to_nat keep) (b_addr b) (pool n)) in
-    let c := check_blk enf n1 b in
+    let c := check_blk E n1 b in
     if (c =? 0) && commit then (mkNode (chain n1) (pool n1 ++ [b]), 0) else (n, c)
   | EMomentum sel =>
     match pick sel (pool n) with
@@ -160,16 +165,16 @@ Definition step_node (enf : bool) (n : node) (e : event) : node * Z :=
   | ERestart => (mkNode (chain n) [], 0)
   end.
 
-Fixpoint run_node (enf : bool) (n : node) (es : list event) : node :=
+Fixpoint run_node (E : Z) (n : node) (es : list event) : node :=
   match es with
   | [] => n
-  | e :: r => run_node enf (fst (step_node enf n e)) r
+  | e :: r => run_node E (fst (step_node E n e)) r
   end.
-Fixpoint run_codes (enf : bool) (n : node) (es : list event) : list Z * node :=
+Fixpoint run_codes (E : Z) (n : node) (es : list event) : list Z * node :=
   match es with
   | [] => ([], n)
-  | e :: r => let '(n1, c) := step_node enf n e in
-              let '(cs, n2) := run_codes enf n1 r in (c :: cs, n2)
+  | e :: r => let '(n1, c) := step_node E n e in
+              let '(cs, n2) := run_codes E n1 r in (c :: cs, n2)
   end.
 
 Definition genesis_node : node := mkNode [[]] [].
@@ -184,3 +189,6 @@ Fixpoint receivers (h : hash) (l : list blk) : list blk :=
               | BSend _ => receivers h r
               end
   end.
+(* ... those of them that belong to account a; those that acknowledge a momentum at or above height E *)
+Definition receivers_by (a : addr) (h : hash) (l : list blk) : list blk := filter (fun b => b_addr b =? a) (receivers h l).
+Definition receivers_from (E : Z) (h : hash) (l : list blk) : list blk := filter (fun b => E <=? b_ma b) (receivers h l).
